@@ -249,9 +249,64 @@ func (n *Net) RecipeSplitLock() string {
 		}
 	}
 	if split && n.Nodes[S[0]].CS.GetRoundState().LockedBlock != nil {
+		if r.Intn(3) > 0 {
+			return "split-locks" + n.lateEquivocalPolka(S[0], rest, h, round, bid2, rs2.Validators)
+		}
 		return "split-locks"
 	}
 	return "S-locked-only"
+}
+
+// lateEquivocalPolka continues a split-lock prefix: in the round in which the
+// rest locked B', the faulty validators had shown S a different prevote (nil);
+// S sees the rest's prevotes for B' (not yet a polka), times out and precommits
+// nil.  Only then does a peer's majority claim for B' arrive at S, followed by
+// the faulty validators' prevotes for B' - conflicting votes, admitted because of
+// the claim - which complete the polka for B' at S.  S must treat it like any
+// other polka of a round later than its lock (unlock).
+func (n *Net) lateEquivocalPolka(s int, rest []int, h int64, round int32, bid2 types.BlockID, vals *types.ValidatorSet) string {
+	now := time.Now()
+	nd := n.Nodes[s]
+	if rs := nd.CS.GetRoundState(); rs.Height != h || rs.Round != round {
+		return "+late-polka:n/a"
+	}
+	for _, g := range n.Faulty {
+		if n.ValIndex(vals, g) < 0 {
+			continue
+		}
+		vn := n.SignVote(vals, g, tmproto.PrevoteType, h, round, types.BlockID{}, now)
+		n.Send(g, s, &cs.VoteMessage{Vote: vn})
+	}
+	// S: own prevote (its lock), the faulty nil prevotes, the rest's prevotes for B'
+	if rs := nd.CS.GetRoundState(); rs.Step == cstypes.RoundStepPropose {
+		n.FireTimeout(s)
+	}
+	n.DeliverWhere(4000, func(e *Envelope) bool {
+		v, ok := isVote(e, tmproto.PrevoteType)
+		return ok && e.To == s && v.Height == h && v.Round == round
+	})
+	if _, ok := nd.CS.GetRoundState().Votes.Prevotes(round).TwoThirdsMajority(); ok {
+		return "+late-polka:rest-alone-is-a-polka"
+	}
+	if t, p := nd.Ticker.Pending(); p && t.Round == round && t.Step == cstypes.RoundStepPrevoteWait {
+		n.FireTimeout(s)
+	}
+	rs := nd.CS.GetRoundState()
+	if rs.Step < cstypes.RoundStepPrecommit || rs.LockedBlock == nil {
+		return "+late-polka:S-did-not-precommit"
+	}
+	// the claim, then the conflicting prevotes that complete the polka
+	_ = nd.CS.VerifVotes().SetPeerMaj23(round, tmproto.PrevoteType, peerID(rest[0]), bid2)
+	for _, g := range n.Faulty {
+		if n.ValIndex(vals, g) < 0 {
+			continue
+		}
+		vb := n.SignVote(vals, g, tmproto.PrevoteType, h, round, bid2, now)
+		n.Deliver(&Envelope{From: rest[0], To: s, Msg: &cs.VoteMessage{Vote: vb}})
+	}
+	rs = nd.CS.GetRoundState()
+	_, polka := rs.Votes.Prevotes(round).TwoThirdsMajority()
+	return fmt.Sprintf("+late-polka(polka-at-S=%v,S-still-locked=%v)", polka, rs.LockedBlock != nil)
 }
 
 // RecipeCommitWithoutBlock makes one correct node learn +2/3 precommits for a
